@@ -440,11 +440,12 @@ pub fn c18(args: &Args, rep: &mut Report) {
         }
     }
     let combos: Vec<Vec<usize>> = if t { vec![vec![0, 1], vec![1, 2], vec![0, 2], vec![1, 1], vec![4, 2], vec![5, 6], vec![5, 5], vec![3, 4, 2], vec![0, 1, 2], vec![2, 2, 1]] } else { vec![vec![0, 1], vec![1, 2], vec![1, 1], vec![3, 4], vec![4, 2], vec![5, 6], vec![3, 4, 0], vec![4, 4, 3]] };
-    for combo in combos {
+    for bound1_pass in (if t { vec![true, false] } else { vec![false] }) {
+    for combo in combos.clone() {
         let bound = if combo.len() == 3 { 2 } else if t { 3 } else { 2 };
         let (c2, d2, s2) = (combo.clone(), data.clone(), solo.clone());
         crate::set_current(&format!("C library, threads running operation sequences {:?} on their own hashers", combo));
-        let n = crate::explore_iterative(bound, if t { None } else { Some(110) }, 50_000, move || {
+        let n = crate::explore_iterative(if bound1_pass { 1 } else { bound }, if !t { Some(110) } else if combo.len() == 3 { Some(300) } else { None }, 50_000, move || {
             // every execution starts with an empty feature cache: detection itself races
             set_features(UNDEFINED);
             let mut hs = vec![];
@@ -469,6 +470,7 @@ pub fn c18(args: &Args, rep: &mut Report) {
         rep.add("transitions", n);
         rep.add("distinct_nontrivial", n.saturating_sub(1));
         rep.inc("loom_models");
+    }
     }
     set_features(UNDEFINED);
     let (s0a, s0b, s1) = c_sizes();
